@@ -10,6 +10,7 @@ package openflow13
 import (
 	"github.com/contiv/libOpenflow/util"
 	vr "github.com/contiv/libOpenflow/verifrt"
+	"net"
 )
 
 func c13ops() int {
@@ -151,4 +152,60 @@ func VerifC13_ConstructorOnly() {
 		m = f
 	}
 	c13repeat(m)
+}
+
+// builder histories in which a nested child grows after it was added (conntrack receiving a
+// nested action, note receiving its text), at element, instruction and message level
+func VerifC13_LateGrowth() {
+	a, grow := c06lateChild()
+	switch vr.Choice("level", 3) {
+	case 0:
+		grow()
+		c13repeat(a)
+	case 1:
+		ia := NewInstrApplyActions()
+		ia.AddAction(a, false)
+		grow()
+		c13repeat(ia)
+	default:
+		ia := NewInstrApplyActions()
+		ia.AddAction(a, false)
+		f := NewFlowMod()
+		f.AddInstruction(ia)
+		grow()
+		c13repeatN(f, 2)
+	}
+}
+
+// a conntrack action whose nested nat action receives its ranges after it was nested
+func VerifC13_LateGrowthNat() {
+	ct := NewNXActionConnTrack()
+	nat := NewNXActionCTNAT()
+	nat.SetSNAT()
+	ct.AddAction(nat)
+	nat.SetRangeIPv4Min(net.IP(vr.Bytes("min", 4)))
+	if vr.Bool("max") {
+		nat.SetRangeIPv4Max(net.IP(vr.Bytes("max", 4)))
+	}
+	if vr.Bool("in-instruction") {
+		ia := NewInstrApplyActions()
+		ia.AddAction(ct, false)
+		c13repeat(ia)
+	} else {
+		c13repeat(ct)
+	}
+}
+
+// an experimenter-class match field written as a literal (no constructor builds one), with any
+// experimenter id including none, alone and inside set-field / reg_load2
+func VerifC13_ExperimenterFieldLiteral() {
+	fld := &MatchField{Class: OXM_CLASS_EXPERIMENTER, Field: vr.U8("field") & 0x7f, Length: 8, ExperimenterID: vr.U32("experimenter"), Value: &Uint32Message{Data: vr.U32("value")}}
+	switch vr.Choice("where", 3) {
+	case 0:
+		c13repeat(fld)
+	case 1:
+		c13repeat(NewActionSetField(*fld))
+	default:
+		c13repeat(NewNXActionRegLoad2(fld))
+	}
 }
